@@ -16,6 +16,7 @@ pub mod limits;
 pub mod twin;
 pub mod bitsrep;
 pub mod codec;
+pub mod cursor;
 
 // ------------------------------------------------------------------ PRNG (splitmix64)
 #[derive(Clone)]
